@@ -588,6 +588,62 @@ func c11RunTopology(w *core.WorkerCtx, t topo, rng *rand.Rand, budget int, order
 	}
 }
 
+// c11SmallCacheRelay: line A-B-C; the relay B runs with a much smaller awaiting cache than the others (a deployment
+// choice), so a large contract does not fit it. B cannot hold the contract, but it has verified it: C, which has no
+// other path, must still get it.
+func c11SmallCacheRelay(w *core.WorkerCtx, rng *rand.Rand) {
+	r := w.R
+	t := mkTopo("line3-small-cache-relay", 3, [][2]int{{0, 1}, {1, 2}})
+	vnet.CacheMB = map[int]int{1: 1}
+	net, err := vnet.Build(t.k, t.adj, -1)
+	vnet.CacheMB = map[int]int{}
+	if err != nil {
+		r.Inconc("cannot build network: " + err.Error())
+		return
+	}
+	defer net.Close()
+	for round := 0; round < 3; round++ {
+		net.ResetExecution()
+		o := net.Nodes[0]
+		data := make([]byte, 60000+rng.Intn(60000))
+		rng.Read(data)
+		tr := ledger.ForgeTrx(net.Users[1], net.Users[2].Addr, fmt.Sprintf("large contract %d", round), data, spice.Melange{}, time.Now().Add(-time.Minute))
+		if err := o.Cache.SaveAwaitedTransaction(&tr); err != nil {
+			r.Note("small cache relay: the origin could not save the contract: " + err.Error())
+			continue
+		}
+		pt, err := transformers.TrxToProtoTrx(tr)
+		if err != nil {
+			continue
+		}
+		o.Pipe.SendTrx(pt)
+		desc := fmt.Sprintf("topology %s origin 0: a %d byte contract through a relay whose awaiting cache is 1 MB (the others: 256 MB) and refuses an entry of that size", t.name, len(data))
+		w.Mark("%s", desc)
+		x := &c11Exec{w: w, net: net, t: t, rng: rng, policy: "fifo"}
+		if !x.drive() {
+			r.Inconc("execution did not reach quiescence: " + desc)
+			continue
+		}
+		net.Settle()
+		held := func(i int) bool {
+			trxs, _ := net.Nodes[i].Cache.ReadTransactions(net.Users[2].Addr)
+			for _, a := range trxs {
+				if a.Hash == tr.Hash {
+					return true
+				}
+			}
+			return false
+		}
+		r.Eval(1)
+		r.Count("c11_executions", 1)
+		r.Count("c11_small_cache_relay_executions", 1)
+		r.Nontriv(fmt.Sprintf("%s/relay-holds=%v/%s", t.name, held(1), net.OrderString()))
+		if !held(2) {
+			r.Violate("C11", "undelivered/behind-a-relay-that-cannot-store", fmt.Sprintf("%s: node 2 never got the contract; the relay (holds it: %v) is its only path", desc, held(1)), nil)
+		}
+	}
+}
+
 // c11Witness is the fixed schedule of the known finding: line A-C-D, parent and child created back to back at A,
 // the child reaches relay C first.
 func c11Witness(w *core.WorkerCtx) {
@@ -639,6 +695,9 @@ func c11Worker(w *core.WorkerCtx) {
 	if w.Batch == 0 {
 		c11Witness(w)
 	}
+	if w.Batch == 1 {
+		c11SmallCacheRelay(w, core.Rand(w.Seed, "C11cache", w.Batch))
+	}
 	// the 9 small graphs are spread over the batches; larger graphs are sampled
 	for ti, t := range smallTopos {
 		if ti%w.Batches != w.Batch%w.Batches {
@@ -667,7 +726,7 @@ func init() {
 	core.Register(&core.Check{
 		Spec: core.Spec{
 			Prop:        "C11",
-			Rule:        "Virtual network of real nodes (real ledger, gossiper, flashback, awaiting cache, juggler) whose peer clients are stubs: a stub call marshals the message and blocks until the harness scheduler delivers it to the target's real handler. Topologies: all 9 connected unlabelled graphs on 2-4 nodes with every origin, plus sampled line/ring/star/random graphs on 5-7 nodes. One item in flight (vertex or awaiting transaction): delivery orders are enumerated systematically (choice vectors over the sorted in-flight set, odometer; bounded per tier), plus sampled policies (random, LIFO, starve-one-node, concurrent bursts to one node, 30% duplicates), mixed vertex+transaction traffic and parent+child created back to back. At logical quiescence (nothing in flight, no handler running, no gossiper goroutine outside its idle loop; parked vertices stepped through the retry hook): every honest node holds every item accepted at its origin with exactly one successful admission (awaiting transactions listed once), per (node,item) at most one send to any peer and only after the node's own admission, no send to a node listed as verified gossiper, forwarder's own valid entry present, at most k(k-1) messages per item. Gossiper entries are verified by the harness's own ed25519 check. Non-trivial = every execution; distinct by (topology, origin, item kinds, delivery order). Also: an awaiting contract is gossiped to quiescence and then sealed at its origin (as notary Confirm does); the sealing vertex must reach every node although they all remember the contract's own gossip, and no node may keep listing the sealed contract as awaiting.",
+			Rule:        "Virtual network of real nodes (real ledger, gossiper, flashback, awaiting cache, juggler) whose peer clients are stubs: a stub call marshals the message and blocks until the harness scheduler delivers it to the target's real handler. Topologies: all 9 connected unlabelled graphs on 2-4 nodes with every origin, plus sampled line/ring/star/random graphs on 5-7 nodes. One item in flight (vertex or awaiting transaction): delivery orders are enumerated systematically (choice vectors over the sorted in-flight set, odometer; bounded per tier), plus sampled policies (random, LIFO, starve-one-node, concurrent bursts to one node, 30% duplicates), mixed vertex+transaction traffic and parent+child created back to back. At logical quiescence (nothing in flight, no handler running, no gossiper goroutine outside its idle loop; parked vertices stepped through the retry hook): every honest node holds every item accepted at its origin with exactly one successful admission (awaiting transactions listed once), per (node,item) at most one send to any peer and only after the node's own admission, no send to a node listed as verified gossiper, forwarder's own valid entry present, at most k(k-1) messages per item. Gossiper entries are verified by the harness's own ed25519 check. Non-trivial = every execution; distinct by (topology, origin, item kinds, delivery order). One scenario gives the relay of a line a much smaller awaiting cache than its neighbours: a contract that does not fit it must still reach the node behind it. Also: an awaiting contract is gossiped to quiescence and then sealed at its origin (as notary Confirm does); the sealing vertex must reach every node although they all remember the contract's own gossip, and no node may keep listing the sealed contract as awaiting.",
 			Assumptions: []string{"message order is controlled by the scheduler; interleavings inside one handler are the real ones", "the 20 s duplicate-suppression window is longer than any execution"},
 			MinEvals:    40, MinNontriv: 20,
 		},
